@@ -168,5 +168,9 @@ def run(ctx):
         # a particle is kept stable when `name in container` holds for the container as given (for a str: as a substring)
         members = [k for k in dc.decays if k != dc.mother and k in st]
         one(dc, members, "iterable-kinds", raw=st)
+    dc = build_chain([("D*+", ["D0", "pi+"]), ("D0", ["K_S0", "pi0", "pi0"]), ("K_S0", ["pi+", "pi-"]), ("pi0", ["gamma", "gamma"])], rng, exact=True)
+    for st in ("pi0", "K_S0 pi0", "D0", ("pi0",), frozenset({"K_S0"}), {"D0": 1}, "pi", "K_S0,pi0"):
+        members = [k for k in dc.decays if k != dc.mother and k in st]
+        one(dc, members, "iterable-kinds", raw=st)
     batch.run()
     return res.done()
